@@ -542,6 +542,86 @@ func continueReturn(c *core.Ctx, rule string, fn *core.Fn, g *cfgq.Graph, info *
 			fmt.Sprintf("on +CONTINUE the function must return the offset of the last byte already received (sent offset - 1), found `%s`: the caller stores it as the base of all later offsets, so ACKs and checkpoints would be off by one", c.Src(ret.Results[1])))
 	}
 	if n == 0 {
+		// the results may be assembled in a result struct: `res := h(); return res.runid, res.offset, res.wait, res.err`
+		// with h one of the closures of the function (possibly looked up in a table); every literal of that
+		// struct type returned inside the function is then a result tuple
+		for _, pt := range g.Points(func(n ast.Node) bool { _, ok := n.(*ast.ReturnStmt); return ok }) {
+			ret := pt.Node().(*ast.ReturnStmt)
+			if len(ret.Results) != 4 {
+				continue
+			}
+			var st *types.Struct
+			var stT types.Type
+			var holder types.Object
+			fields := make([]string, 4)
+			for i, r := range ret.Results {
+				sel, ok := ast.Unparen(r).(*ast.SelectorExpr)
+				if !ok {
+					fields = nil
+					break
+				}
+				id, ok := ast.Unparen(sel.X).(*ast.Ident)
+				if !ok || core.FieldOf(info, sel) == nil || holder != nil && core.ObjOf(info, id) != holder {
+					fields = nil
+					break
+				}
+				holder = core.ObjOf(info, id)
+				fields[i] = sel.Sel.Name
+			}
+			if fields == nil || holder == nil {
+				continue
+			}
+			stT = holder.Type()
+			st, _ = stT.Underlying().(*types.Struct)
+			if st == nil {
+				continue
+			}
+			core.InspectAll(fn.Decl.Body, func(m ast.Node) bool {
+				r2, ok := m.(*ast.ReturnStmt)
+				if !ok || len(r2.Results) != 1 {
+					return true
+				}
+				lit, ok := ast.Unparen(r2.Results[0]).(*ast.CompositeLit)
+				if !ok || !types.Identical(info.TypeOf(lit), stT) {
+					return true
+				}
+				val := map[string]ast.Expr{}
+				for i, el := range lit.Elts {
+					if kv, ok := el.(*ast.KeyValueExpr); ok {
+						if id, ok := kv.Key.(*ast.Ident); ok {
+							val[id.Name] = kv.Value
+						}
+					} else if i < st.NumFields() {
+						val[st.Field(i).Name()] = el
+					}
+				}
+				isNilField := func(name string) bool { e, ok := val[name]; return !ok || core.IsNil(info, e) }
+				if !isNilField(fields[2]) || !isNilField(fields[3]) {
+					return true // FULLRESYNC or an error
+				}
+				n++
+				key := fmt.Sprintf("SendPSyncContinue/continue-returns-received#%d", n)
+				offE, has := val[fields[1]]
+				if !has {
+					c.Undecidedf(rule, key, lit.Pos(), "result literal `%s` without wait channel and error leaves the offset at its zero value", c.Src(lit))
+					return true
+				}
+				be, ok := ast.Unparen(offE).(*ast.BinaryExpr)
+				good := ok && be.Op == token.SUB && isOff(be.X)
+				if good {
+					v, isC := core.IntConst(info, be.Y)
+					good = isC && v == 1
+				}
+				if off != inOff && IsObj(info, inOff)(offE) {
+					good = true
+				}
+				c.Check(rule, key, lit.Pos(), good,
+					fmt.Sprintf("on +CONTINUE the function must return the offset of the last byte already received (sent offset - 1), found `%s`: the caller stores it as the base of all later offsets, so ACKs and checkpoints would be off by one", c.Src(offE)))
+				return true
+			})
+		}
+	}
+	if n == 0 {
 		c.Undecidedf(rule, "SendPSyncContinue/continue-returns-received", fn.Decl.Pos(), "no `return runid, offset-1, nil, nil` arm found")
 	}
 }
@@ -676,7 +756,12 @@ func PSyncCalls(c *core.Ctx, rule string, only string) int {
 		}
 		n++
 		info := cs.In.Pkg.TypesInfo
-		key := cs.In.Name + "/offset-arg"
+		// keyed by the declared function, also when the call sits in a closure of it
+		inName := cs.In.Name
+		if i := strings.Index(inName, "$"); i >= 0 {
+			inName = inName[:i]
+		}
+		key := inName + "/offset-arg"
 		if len(cs.Call.Args) != 4 {
 			c.Undecidedf(rule, key, cs.Call.Pos(), "unexpected arity")
 			continue
@@ -710,7 +795,7 @@ func PSyncCalls(c *core.Ctx, rule string, only string) int {
 			}
 		}
 		isParam := false
-		if rid != nil && cs.In.Lit == nil {
+		if rid != nil { // (a closure of the function sees the same parameter)
 			for _, f := range cs.In.Decl.Type.Params.List {
 				for _, nm := range f.Names {
 					if info.Defs[nm] == core.ObjOf(info, rid) {
@@ -720,9 +805,9 @@ func PSyncCalls(c *core.Ctx, rule string, only string) int {
 			}
 		}
 		if isParam {
-			c.Okf(rule, cs.In.Name+"/runid-arg", cs.Call.Pos(), "PSYNC names the run id handed to %s", cs.In.Name)
+			c.Okf(rule, inName+"/runid-arg", cs.Call.Pos(), "PSYNC names the run id handed to %s", inName)
 		} else {
-			c.Undecidedf(rule, cs.In.Name+"/runid-arg", cs.Call.Pos(), "run id argument `%s` is not a parameter of the caller", c.Src(cs.Call.Args[2]))
+			c.Undecidedf(rule, inName+"/runid-arg", cs.Call.Pos(), "run id argument `%s` is not a parameter of the caller", c.Src(cs.Call.Args[2]))
 		}
 	}
 	return n
